@@ -611,14 +611,14 @@ def parse_arg_record(T, R, mod, name, src, struct_fields):
             f.update(kind="array", count=cnt, elem=sizes, elemty=ety, isrec=isrec)
         elif re.fullmatch(r"cursor\.read_with_args\((&\w+|&\([^()]*\))\)\?", e):
             a = parse_size_args(re.fullmatch(r"cursor\.read_with_args\((.*)\)\?", e).group(1))
-            f.update(kind="arrayV", count=("lit", 1), size=("compute", fty, a), elemty=fty)
+            f.update(kind="arrayV", count=("lit", 1), size=("compute", fty, a), elemty=fty, computed=False)
         elif re.fullmatch(r"cursor\.read_computed_array\((\w+) as usize,(&\w+|&\([^()]*\))\)\?", e):
             mm2 = re.fullmatch(r"cursor\.read_computed_array\((\w+) as usize,(.*)\)\?", e)
             mm = re.fullmatch(r"ComputedArray<'a,(\w+)(?:<'a>)?>", fty)
             if not mm:
                 raise NotCovered(f"record computed array field {fname}: type {fty}")
             cnt = parse_reader_count(T, f"({mm2.group(1)} as usize)", var_ty, [a for a, _ in args])
-            f.update(kind="arrayV", count=cnt, size=("compute", mm.group(1), parse_size_args(mm2.group(2))), elemty=mm.group(1))
+            f.update(kind="arrayV", count=cnt, size=("compute", mm.group(1), parse_size_args(mm2.group(2))), elemty=mm.group(1), computed=True)
         else:
             raise NotCovered(f"record field {fname}: {e[:80]} : {fty}")
         fields.append(f)
@@ -887,7 +887,8 @@ def parse_reader_table(T, mod, name, src, marker_body, R, generic=False):
                 for a in size[2]:
                     if a not in var_ty or not T.unsigned(var_ty[a]):
                         raise NotCovered(f"size argument {a} is not an unsigned field / argument read before")
-                f.update(kind="arrayV", count=cnt, size=size, elemty=size[1])
+                # `count.checked_mul(compute_size)`: a ComputedArray; a bare `compute_size`: one record read in place
+                f.update(kind="arrayV", count=cnt, size=size, elemty=size[1], computed=".checked_mul(" in mm.group(1))
             else:
                 vs = R.var_sizes.get(size[1])
                 if vs is None:
@@ -913,7 +914,8 @@ def parse_reader_table(T, mod, name, src, marker_body, R, generic=False):
                         raise NotCovered(f"getter of {gname} returns {gty}")
                 if f["name"] == gname and f["kind"] == "arrayV":
                     e_ = f['elemty']
-                    if gty not in (f"ComputedArray<'a,{e_}<'a>>", f"ComputedArray<'a,{e_}>", e_, f"{e_}<'a>"):
+                    want = (f"ComputedArray<'a,{e_}<'a>>", f"ComputedArray<'a,{e_}>") if f["computed"] else (e_, f"{e_}<'a>")
+                    if gty not in want:
                         raise NotCovered(f"getter of {gname} returns {gty}")
                 if f["name"] == gname and f["kind"] == "arrayL":
                     if gty != f"VarLenArray<'a,{f['elemty']}<'a>>":
@@ -1436,9 +1438,12 @@ def build_pair(T, W, R, mod, name, wd, computed_ids):
             elif f["kind"] == "arrayV":
                 segs = compute_size_segs(T, R, f["size"][1], rkey[0], [('var', a) for a in f["size"][2]])
                 sl = segs_lean(segs, rids)
-                item = f".arrayV {cnt} {sl}"
+                item = f".arrayV {cnt} {sl} {'true' if f['computed'] else 'false'}"
                 assumes.append(f".elemLen {i} {sl}")
                 assume_text.append(f"every element of {names[i]} has the scalars {segs_text(segs)}")
+                if f["computed"]:
+                    assumes.append(f".elemSized {i} {sl}")
+                    assume_text.append(f"{names[i]} is empty or its elements have a non-zero size (a ComputedArray of zero-sized items reads back empty)")
             else:
                 item = f".arrayL {cnt} {f['hw']} {lean_list([str(x) for x in f['item']])}"
         rl.append(f"⟨{i}, {lean_opt_cond(cond)}, {item}⟩")
